@@ -11,8 +11,8 @@ vars == <<chunks, k, st>>
 Kinds == {[k |-> "end", reset |-> "none", props |-> "ok", pl |-> "ok"],
           [k |-> "bad", reset |-> "none", props |-> "ok", pl |-> "ok"]}
          \cup {[k |-> "unc", reset |-> x, props |-> "ok", pl |-> "ok"] : x \in {"dict", "none"}}
-         \cup {[k |-> "lzma", reset |-> x, props |-> "ok", pl |-> p] : x \in {"none", "state"}, p \in {"ok", "err", "short", "long"}}
-         \cup {[k |-> "lzma", reset |-> x, props |-> q, pl |-> p] : x \in {"props", "all"}, q \in {"ok", "bad"}, p \in {"ok", "err", "short", "long"}}
+         \cup {[k |-> "lzma", reset |-> x, props |-> "ok", pl |-> p] : x \in {"none", "state"}, p \in {"ok", "err", "short", "long", "rcend"}}
+         \cup {[k |-> "lzma", reset |-> x, props |-> q, pl |-> p] : x \in {"props", "all"}, q \in {"ok", "bad"}, p \in {"ok", "err", "short", "long", "rcend"}}
 WithId(ch, i) == [k |-> ch.k, reset |-> ch.reset, props |-> ch.props, pl |-> ch.pl, id |-> i, n |-> i, c |-> 3 + i]
 
 VStep(s, ch) ==
